@@ -132,8 +132,9 @@ def struct_binops(st, ops, forward_attr, group):
                            (["impl/src/mul_like.rs::expand (forward)"] if forward_attr else []))
 
 
-def struct_scalar(st):
-    """Mul-like without forward: r.i == a.i op k"""
+def struct_scalar(st, explicit_not_forward=False):
+    """Mul-like without forward: r.i == a.i op k.  `explicit_not_forward`: the same with the accepted spelling `#[mul(not(forward))]` of "without
+    forward" (seed C10-not-forward-recorded-as-forward)."""
     derives = [t for t, _, _ in MUL_LIKE]
     hs, src = [], ""
     for t, m, sym in MUL_LIKE:
@@ -144,8 +145,8 @@ def struct_scalar(st):
             fn, st.any(), sym, asserts)
         hs.append(Harness(fn, "struct fields and the scalar: free u32 each", covers=1,
                           asserts="(a %s k).i == a.i %s k for every field i" % (sym, sym)))
-    decl = st.decl(derives)
-    return Shape("c10_mulscalar_%s" % st.tag, module(decl, src), hs, decl.replace("\n", " "),
+    decl = st.decl(derives, "".join("#[%s(not(forward))]\n" % snake(t) for t, _, _ in MUL_LIKE) if explicit_not_forward else "")
+    return Shape("c10_mulscalar%s_%s" % ("_not_forward" if explicit_not_forward else "", st.tag), module(decl, src), hs, decl.replace("\n", " "),
                  exercises=["impl/src/mul_like.rs::expand", "impl/src/mul_helpers.rs::generics_and_exprs"])
 
 
@@ -169,7 +170,7 @@ def struct_assign(st, ops, forward, group):
                  exercises=["impl/src/add_assign_like.rs::expand"] + (["impl/src/mul_assign_like.rs::expand (forward)"] if forward else []))
 
 
-def struct_scalar_assign(st):
+def struct_scalar_assign(st, explicit_not_forward=False):
     derives = [t for t, _, _ in MUL_LIKE] + [t + "Assign" for t, _, _ in MUL_LIKE]
     hs, src = [], ""
     for t, m, sym in MUL_LIKE:
@@ -180,8 +181,8 @@ def struct_scalar_assign(st):
             fn, st.any(), sym, sym, sym, sym, direct)
         hs.append(Harness(fn, "struct fields and the scalar: free u32 each", covers=1,
                           asserts="after `x = a; x %s= k`: x == a %s k and field-wise" % (sym, sym)))
-    decl = st.decl(derives)
-    return Shape("c10_mulscalar_assign_%s" % st.tag, module(decl, src), hs, decl.replace("\n", " "),
+    decl = st.decl(derives, "".join("#[%s(not(forward))]\n#[%s_assign(not(forward))]\n" % (snake(t), snake(t)) for t, _, _ in MUL_LIKE) if explicit_not_forward else "")
+    return Shape("c10_mulscalar_assign%s_%s" % ("_not_forward" if explicit_not_forward else "", st.tag), module(decl, src), hs, decl.replace("\n", " "),
                  exercises=["impl/src/mul_assign_like.rs::expand", "impl/src/mul_helpers.rs::generics_and_exprs"])
 
 
@@ -335,6 +336,8 @@ def shapes(tier):
                    struct_unary(st), struct_sum(st)):
             sh.quick = q
             out.append(sh)
+        if st.tag in ("tuple2", "named1"):
+            out += [struct_scalar(st, True), struct_scalar_assign(st, True)]
     for ename, variants in ENUMS.items():
         q = ename in ("mixed", "single")
         sh = enum_binops(ename, variants, ADD_LIKE, False, "addlike")
